@@ -459,6 +459,44 @@ func auxAug(res *Result, dir string, idx int, cs interface{}) {
 		}
 	}
 	res.count("aux_elided_checked", 1)
+	// a slice cut by the runtime right after its length ({ptr, len, ...}): no capacity was printed, none is shown;
+	// and words printed flat (toolchains before 1.17): the page shows the typed renderings, nothing more
+	src2 := "package main\n\nfunc cut(a, b, c, d, e, f, g, h int, s []int) {\n\tpanic(\"x\")\n}\n\nfunc describe(s string, n int) {\n\tpanic(\"x\")\n}\n"
+	_ = os.WriteFile(filepath.Join(dir, "more.go"), []byte(src2), 0o644)
+	file2 := filepath.ToSlash(filepath.Join(dir, "more.go"))
+	dump2 := fmt.Sprintf("goroutine 1 [running]:\nmain.cut(0x1, 0x2, 0x3, 0x4, 0x5, 0x6, 0x7, 0x8, {0xc000100000, 0x2, ...})\n\t%s:4 +0x1d\nmain.describe(0x4b8f2a, 0x5, 0x7)\n\t%s:8 +0x1d\n", file2, file2)
+	s2, pan2 := scanWith(dump2, &stack.Opts{LocalGOROOT: runtime.GOROOT(), GuessPaths: true, AnalyzeSources: true})
+	if pan2 == "" && s2 != nil && len(s2.Goroutines) == 1 && len(s2.Goroutines[0].Stack.Calls) == 2 {
+		c0, c1 := &s2.Goroutines[0].Stack.Calls[0], &s2.Goroutines[0].Stack.Calls[1]
+		if n := len(c0.Args.Processed); n > 0 && regexp.MustCompile(`cap=\d`).MatchString(c0.Args.Processed[n-1]) {
+			res.violation(Finding{Property: "C19", Aspect: "invented-capacity", What: fmt.Sprintf("augment case %d: the runtime cut the slice after its length, yet the rendering %q states a capacity", idx, c0.Args.Processed[n-1]), Case: cs, Input: []byte(dump2)})
+		}
+		if want := []string{"string(0x4b8f2a, len=5)", "7"}; len(c1.Args.Processed) != 0 {
+			if !reflect.DeepEqual(c1.Args.Processed, want) {
+				res.violation(Finding{Property: "C19", Aspect: "flat-words", What: fmt.Sprintf("augment case %d: words printed flat: describe(\"....\", 7) is rendered as %v", idx, c1.Args.Processed), Case: cs, Input: []byte(dump2), Expected: want, Observed: c1.Args.Processed})
+			}
+			var hb bytes.Buffer
+			if s2.ToHTML(&hb, "") == nil {
+				page := hb.String()
+				if i := strings.Index(page, "describe</a></span>("); i >= 0 {
+					seg := page[i+len("describe</a></span>("):]
+					if j := strings.Index(seg, ")\n"); j >= 0 {
+						seg = seg[:j]
+					} else if j := strings.Index(seg, ")<"); j >= 0 {
+						seg = seg[:j]
+					}
+					txt := strings.TrimSpace(regexp.MustCompile(`<[^>]*>`).ReplaceAllString(seg, ""))
+					if k := strings.LastIndex(txt, ")"); k >= 0 && !strings.HasSuffix(txt, "len=5)") && !strings.HasSuffix(txt, "7") {
+						txt = txt[:k]
+					}
+					if strings.Count(txt, ",") != 2 || !strings.Contains(txt, "len=5") || !strings.HasSuffix(strings.TrimSpace(txt), "7") {
+						res.violation(Finding{Property: "C19", Aspect: "html-args", What: fmt.Sprintf("augment case %d: the page shows the arguments of describe as %q; the typed renderings are %v", idx, txt, want), Case: cs, Input: []byte(dump2)})
+					}
+				}
+			}
+		}
+		res.count("aux_truncated_slice_checked", 1)
+	}
 }
 
 // cutAug: C10 with path guessing and source analysis on. The stream is cut at every byte after
